@@ -224,6 +224,7 @@ def run(run_, ctx):
         pol = lambda g, ev: g.canon in local_canons and g.canon != root.canon
         eng = sym.Engine(F, max_visits=3, inline=pol, models=sym.SLICE_MODELS, max_depth=10)
         arms = {}
+        complete = {}
         insert_ok = True
         for p in eng.run(root):
             if p.status not in ("return", "cut"):
@@ -240,6 +241,8 @@ def run(run_, ctx):
                 if root.canon in (cn, rc):
                     visits.append(tuple("[*]" if re.match(r"^\[\d+\]$|^\[\?\]$", x) else x for x in field_path(e["args"][0])))
             arms.setdefault(k, []).append(visits)
+            if p.status == "return":
+                complete.setdefault(k, []).append(visits)
             ins = [e for e in evs if e["name"] == "insert" and "HashSet" in (e["key"] or "")]
             okp = (len(ins) == 1 and norm(ins[0]["args"][0]) == ("param", 2, root.locals[2]["ty"]) and norm(ins[0]["args"][1])[0] == "call"
                    and (norm(ins[0]["args"][1])[2] or "").endswith("Clone::clone") and norm(norm(ins[0]["args"][1])[3][0]) == ("param", 1, root.locals[1]["ty"])
@@ -264,6 +267,10 @@ def run(run_, ctx):
             for w in sorted(want & flat):
                 if "[*]" in w and max(l.count(w) for l in lists) < 2:
                     probs.append("elements at %s are not visited once per element" % "/".join(w[1:]))
+                # a child that is not behind a loop must be visited on every path that returns normally (no early exit past it)
+                # (children that exist only for one shape of a nested Data are conditional and judged by the union above)
+                if "[*]" not in w and sum(1 for x in w if x.startswith("as ")) == 1 and any(w not in l for l in complete.get(v["idx"], [])):
+                    probs.append("nested schema at %s is skipped on some path (an early return before the walk reaches it)" % "/".join(w[1:]))
             run_.check(not probs, "X", key, probs[0] if probs else "children visited: %s" % (sorted("/".join(w[1:]) for w in want) or "none (leaf)"), root.where(), found=probs)
     else:
         run_.bad("X", "discover_tys", "walker root not found by signature")
